@@ -11,7 +11,7 @@ consensus database holds; the model replays the same events and must hold the sa
                                                                                       up: `ElectionByTick` of its tick) and inserted
   nc-rollback <fid> <k>                                        | <frontier hash>      k momentums were deleted
   nc-epoch <fid> <T>                                           | future               `EpochStats(T)` = nil
-                                                               | served <point>       the stored point kept its end hash
+                                                               | served <point>       the stored point was kept (end hash = the chain's, epoch finished)
                                                                | recomputed <point>   it was (re)generated
   nc-stored <fid>                                              | P[<tick>:<endHash>:<point>;…] E[…]   every stored period / epoch point
   nc-ends <fid> <n>                                            | <hash>,…             `GetEndBlock(t)` of the period ticks 0..n-1
@@ -75,7 +75,7 @@ def ncStep (st : NcAll) : List String → Option (NcAll × String)
       let L := s.cfg.len * s.cfg.mult
       let r := epochC countSpec s.cfg s.node.chain s.node.caches T
       let served := match s.node.caches.ec T with
-        | some (h, _) => h == headHash s.cfg.g (endCut L s.node.chain T)
+        | some (h, _) => h == headHash s.cfg.g (endCut L s.node.chain T) && finished L s.node.chain T
         | none => false
       let out := match r.1 with
         | none => "future"
